@@ -257,17 +257,25 @@ theorem newNumFmt_spec {r r1 : Reg} {s : Style} {n : Nat} (w : WF r) (h : newNum
           obtain ⟨e, w', ht'⟩ := this
           exact ⟨e, w', by rw [ht']; exact Nat.le_refl _⟩
         · rename_i l cnt hsome
-          split at h
-          · simp at h
-          · rename_i last hlast
-            simp at h; obtain ⟨h1, h2⟩ := h
-            have hl : numFmtList r = l := by simp [numFmtList, hsome]
-            have ht : topId r = last.id := by simp [topId, hl, hlast]
-            have := addNum_rec w (last.id + 1) (currencyCode fc s) (cnt + 1) (by omega)
-            simp only [hl] at this
-            subst h1; subst h2
-            obtain ⟨e, w', ht'⟩ := this
-            exact ⟨e, w', by rw [ht']; exact Nat.le_refl _⟩
+          have hl : numFmtList r = l := by simp [numFmtList, hsome]
+          cases hf : l.find? (·.code == currencyCode fc s) with
+          | some nf =>
+            rw [hf] at h; simp only at h
+            injection h with h; injection h with h1 h2; subst h1; subst h2
+            exact ⟨Ext.refl _, w, w.numTop nf (by rw [hl]; exact List.mem_of_find?_eq_some hf)⟩
+          | none =>
+            rw [hf] at h
+            cases hlast : l.getLast? with
+            | none => rw [hlast] at h; simp at h
+            | some last =>
+              rw [hlast] at h; simp only at h
+              injection h with h; injection h with h1 h2
+              have ht : topId r = last.id := by simp [topId, hl, hlast]
+              have := addNum_rec w (last.id + 1) (currencyCode fc s) (cnt + 1) (by omega)
+              simp only [hl] at this
+              subst h1; subst h2
+              obtain ⟨e, w', ht'⟩ := this
+              exact ⟨e, w', by rw [ht']; exact Nat.le_refl _⟩
 
 theorem findIdx?_lt {α} {p : α → Bool} {l : List α} {i : Nat} (h : l.findIdx? p = some i) : i < l.length := by
   rw [List.findIdx?_eq_some_iff_getElem] at h
@@ -514,7 +522,7 @@ theorem newNumFmt_cstep {r r1 : Reg} {s : Style} {n : Nat} (h : newNumFmt r s = 
   all_goals first
     | (simp at h; done)
     | (injection h with h; injection h with h1 h2; subst h1; exact CountStep.refl _)
-    | (simp only [setCustomNumFmt] at h
+    | (try simp only [setCustomNumFmt] at h
        injection h with h; injection h with h1 h2; subst h1
        refine ⟨Touched.refl _ _, Touched.refl _ _, Touched.refl _ _, Touched.refl _ _, fun hc l c hl => ?_⟩
        simp at hl; obtain ⟨e1, e2⟩ := hl; subst e1; subst e2
